@@ -53,7 +53,7 @@ var specs = map[string]propSpec{
 	},
 	"C02": {
 		Units: []unitSpec{
-			{Name: "rapid-predicates", Test: "TestC02Rapid", Rapid: true, QuickChecks: 40000, ThoroughChecks: 250000, QuickShards: 4, ThoroughShards: 16, ThoroughTimeoutS: 5400},
+			{Name: "rapid-predicates", Test: "TestC02Rapid", Rapid: true, QuickChecks: 25000, ThoroughChecks: 250000, QuickShards: 4, ThoroughShards: 16, ThoroughTimeoutS: 5400},
 		},
 		Assumptions: refAssumptions("node-sets that are converted to a string or counted inside predicates are flat paths while the known findings KF-A/KF-B are confirmed present"),
 	},
